@@ -20,9 +20,9 @@ MANIFEST = {
     'technique': 'refinement proof M = S + differential correspondence',
 }
 PROPERTY_FILES = ['Properties/C02.v']
-REFUTED_FILES = []
-MODEL_FILES = ['SF/IndexBij.v', 'SF/IndexBijVal.v']
-IMPORTS = 'Require Import SF.Prelude SF.Dtype SF.Value SF.PySlice SF.IndexBij SF.IndexBijVal.'
+REFUTED_FILES = ['Refuted/C02.v']
+MODEL_FILES = ['Gen/Gen_c02.v', 'SF/IndexBij.v', 'SF/IndexBijVal.v', 'SF/IxTree.v', 'SF/IxTreeVal.v']
+IMPORTS = 'Require Import SF.Prelude SF.Dtype SF.Value SF.PySlice SF.IndexBij SF.IndexBijVal SF.IxTree SF.IxTreeVal.'
 RULE = ('api strata: label lists (ints, strs, bools, exact floats, tuples, dates, mixed; empty; duplicates) through the public constructors; '
         'each index is observed completely (values, iteration, reversed, len, positions, iloc[i], loc_to_iloc and `in` for held and absent probes); '
         'a case is non-trivial when it has >= 2 labels or is rejected; distinct = distinct (route, labels, probes)')
@@ -31,6 +31,116 @@ ASSUMPTIONS = ['automap.FrozenAutoMap/AutoMap: insertion-ordered hash map label 
 TRUSTED = []
 EXHAUSTIVE = {'quick': False, 'thorough': False}
 TRANSLATED = []
+
+
+# ----------------------------------------------------------------------------- generated constants
+def generate(repo):
+    '''Decisive facts of index.py / index_level.py read from the AST on every run (fail closed): the model M uses these
+    constants, so the theorems of Properties/C02.v and the witnesses of Refuted/C02.v are re-checked against what the
+    source says now.'''
+    import ast
+    import os
+
+    def parse(rel):
+        with open(os.path.join(repo, rel)) as f:
+            return ast.parse(f.read())
+
+    def find_class(tree, name):
+        for n in tree.body:
+            if isinstance(n, ast.ClassDef) and n.name == name:
+                return n
+        raise ValueError(f'class {name} not found')
+
+    def find_func(cls, name):
+        for n in cls.body:
+            if isinstance(n, ast.FunctionDef) and n.name == name:
+                return n
+        raise ValueError(f'{cls.name}.{name} not found')
+
+    def is_self_attr(node, attr):
+        return isinstance(node, ast.Attribute) and node.attr == attr and isinstance(node.value, ast.Name) and node.value.id == 'self'
+
+    def raised_class(stmt):
+        if isinstance(stmt, ast.Raise) and isinstance(stmt.exc, ast.Call) and isinstance(stmt.exc.func, ast.Name):
+            return stmt.exc.func.id
+        raise ValueError('expected `raise Cls(...)`')
+
+    def enum_of(cls_name):
+        if cls_name not in lit.ERR_CLASSES:
+            raise ValueError(f'exception class {cls_name} has no place in the error enum')
+        return lit.ERR_CLASSES[cls_name]
+
+    index_mod = parse('static_frame/core/index.py')
+    # (1) Index.__init__: try: self._map = FrozenAutoMap(labels) ... except ValueError: pass; if self._map is None: raise X
+    init = find_func(find_class(index_mod, 'Index'), '__init__')
+    init_err = None
+    for node in ast.walk(init):
+        body = getattr(node, 'body', None)
+        if not isinstance(body, list):
+            continue
+        for i, st in enumerate(body):
+            if (isinstance(st, ast.Try) and len(st.handlers) == 1 and isinstance(st.handlers[0].type, ast.Name)
+                    and st.handlers[0].type.id == 'ValueError'
+                    and any(isinstance(b, ast.Assign) and is_self_attr(b.targets[0], '_map') for b in st.body)):
+                if len(st.handlers[0].body) != 1 or not isinstance(st.handlers[0].body[0], ast.Pass):
+                    raise ValueError('Index.__init__: the ValueError handler is no longer `pass`')
+                nxt = body[i + 1]
+                if not (isinstance(nxt, ast.If) and isinstance(nxt.test, ast.Compare) and is_self_attr(nxt.test.left, '_map')):
+                    raise ValueError('Index.__init__: no `if self._map is None: raise` after the AutoMap construction')
+                init_err = enum_of(raised_class(nxt.body[0]))
+    if init_err is None:
+        raise ValueError('Index.__init__: AutoMap construction not found')
+    # (2)(3) _IndexGOMixin.append
+    app = find_func(find_class(index_mod, '_IndexGOMixin'), 'append')
+    stmts = [s for s in app.body if not (isinstance(s, ast.Expr) and isinstance(s.value, ast.Constant))]
+    first = stmts[0]
+    if not (isinstance(first, ast.If) and isinstance(first.test, ast.Call) and is_self_attr(first.test.func, '__contains__')):
+        raise ValueError('_IndexGOMixin.append no longer starts with the __contains__ test')
+    append_err = enum_of(raised_class(first.body[0]))
+    i_push = i_map = None
+    map_arg_is_mutable = None
+    for i, st in enumerate(stmts):
+        if (isinstance(st, ast.Expr) and isinstance(st.value, ast.Call) and isinstance(st.value.func, ast.Attribute)
+                and st.value.func.attr == 'append' and is_self_attr(st.value.func.value, '_labels_mutable')):
+            i_push = i
+        if isinstance(st, ast.If) and isinstance(st.test, ast.Name) and st.test.id == 'initialize_map':
+            for b in ast.walk(st):
+                if isinstance(b, ast.Call) and isinstance(b.func, ast.Name) and b.func.id == 'AutoMap':
+                    i_map = i
+                    map_arg_is_mutable = len(b.args) == 1 and is_self_attr(b.args[0], '_labels_mutable')
+    if i_push is None or i_map is None:
+        raise ValueError('_IndexGOMixin.append: push / AutoMap promotion statements not found')
+    push_before_map = i_push < i_map
+    if push_before_map and not map_arg_is_mutable:
+        raise ValueError('_IndexGOMixin.append: unexpected AutoMap argument')
+    # (4) IndexLevel.__contains__: what is returned once a leaf level is reached
+    lvl_mod = parse('static_frame/core/index_level.py')
+    cont = find_func(find_class(lvl_mod, 'IndexLevel'), '__contains__')
+    loops = [n for n in cont.body if isinstance(n, ast.For)]
+    if len(loops) != 1:
+        raise ValueError('IndexLevel.__contains__: expected one for loop')
+    last = loops[0].body[-1]
+    if not isinstance(last, ast.Return):
+        raise ValueError('IndexLevel.__contains__: loop body no longer ends with a return')
+    if isinstance(last.value, ast.Constant) and last.value.value is True:
+        leaf_checks_exhausted = False
+    elif isinstance(last.value, (ast.Compare, ast.BoolOp)):
+        leaf_checks_exhausted = True
+    else:
+        raise ValueError('IndexLevel.__contains__: unexpected return expression at the leaf level')
+    b = lambda v: 'true' if v else 'false'
+    text = ('(* GENERATED on every run by tools/sfv/props/c02.py:generate from the AST of static_frame/core/index.py\n'
+            '   (Index.__init__, _IndexGOMixin.append) and index_level.py (IndexLevel.__contains__).  Do not edit. *)\n'
+            'Require Import SF.Prelude.\n\n'
+            '(* error class (harness enum) raised by Index.__init__ when AutoMap reports a duplicate *)\n'
+            f'Definition gen_init_dup_error : string := {lit.s(init_err)}.\n'
+            '(* error class raised by IndexGO.append when the value is already contained *)\n'
+            f'Definition gen_append_dup_error : string := {lit.s(append_err)}.\n'
+            '(* IndexGO.append pushes the value onto _labels_mutable BEFORE AutoMap(self._labels_mutable) is built on promotion *)\n'
+            f'Definition gen_go_push_before_map : bool := {b(push_before_map)}.\n'
+            '(* IndexLevel.__contains__ checks that the key is exhausted when it reaches a leaf level *)\n'
+            f'Definition gen_hier_contains_checks_exhausted : bool := {b(leaf_checks_exhausted)}.\n')
+    return {'Gen/Gen_c02.v': text}
 
 
 # ----------------------------------------------------------------------------- literals
@@ -50,9 +160,10 @@ def rz(fn):
         out = fn()
     except Exception as e:  # noqa
         return f'(Err {lit.s(lit.err_class(e))})'
-    if isinstance(out, (int, np.integer)) and not isinstance(out, (bool, np.bool_)):
-        return f'(Ok {lit.z(out)})'
-    return f'(Err {lit.s("NotAnInt:" + type(out).__name__)})'
+    # a bool result is Python-equal to the position 0/1 (the map-less path returns the key itself)
+    if isinstance(out, (int, np.integer, bool, np.bool_)):
+        return f'(Ok {lit.z(int(out))})'
+    return '(Err "NotAPosition")'
 
 
 def arr_items(a):
@@ -79,12 +190,25 @@ def obs_lit(ix, probes):
     ]) + ')')
 
 
+class ReaderRaised(Exception):
+    '''A reader (values / iteration / len / positions / iloc / loc_to_iloc / in) of an EXISTING index raised.'''
+
+
+def reading(fn, *args):
+    try:
+        return fn(*args)
+    except ReaderRaised:
+        raise
+    except Exception as e:  # noqa
+        raise ReaderRaised(f'{type(e).__name__}: {str(e)[:120]}')
+
+
 def robs_lit(build, probes):
     try:
         ix = build()
     except Exception as e:  # noqa
         return f'(Err {lit.s(lit.err_class(e))})', None
-    return f'(Ok {obs_lit(ix, probes)})', ix
+    return f'(Ok {reading(obs_lit, ix, probes)})', ix
 
 
 # ----------------------------------------------------------------------------- label pools
@@ -187,6 +311,750 @@ def construct_random_cases(ctx):
         yield index_case(ctx, name, R[name], labels, probes, 'api:construct-random')
 
 
+# ----------------------------------------------------------------------------- auto-integer index
+def auto_routes():
+    import static_frame as sf
+    from static_frame.core.index_auto import IndexAutoFactory
+    return {
+        'Series(values).index': lambda n: sf.Series(tuple(range(10, 10 + n))).index,
+        'Frame(array).index': lambda n: sf.Frame(np.zeros((n, 1))).index,
+        'Frame(array).columns': lambda n: sf.Frame(np.zeros((1, n))).columns,
+        'FrameGO(array).columns': lambda n: sf.FrameGO(np.zeros((1, n))).columns,
+        'IndexAutoFactory': lambda n: IndexAutoFactory.from_optional_constructor(n, default_constructor=sf.Index),
+        'IndexAutoFactory(GO)': lambda n: IndexAutoFactory.from_optional_constructor(n, default_constructor=sf.IndexGO),
+    }
+
+
+def is_int_typed(v):
+    return isinstance(v, (int, np.integer))       # includes bool, as INT_TYPES does
+
+
+def auto_probe_class(n, k):
+    '''Class of a probe key on an auto-integer index of n labels, decided from the INPUT only.'''
+    if k is None:
+        return 'unvalidated'
+    if isinstance(k, (bool, np.bool_)):
+        return 'ok' if int(k) < n else 'unvalidated'
+    if isinstance(k, (int, np.integer)):
+        return 'unvalidated' if -n <= k < 0 else 'ok'
+    if isinstance(k, (float, np.floating)) and float(k).is_integer() and 0 <= k < n:
+        return 'float-key'
+    return 'ok'
+
+
+FINDING_AUTO = {'unvalidated': 'C02-auto-unvalidated-key', 'float-key': 'C02-auto-float-key'}
+
+
+def auto_cases(ctx):
+    R = auto_routes()
+    nmax = 4 if ctx.tier == 'quick' else 7
+    names = sorted(R) if ctx.tier == 'thorough' else ['Series(values).index', 'Frame(array).columns', 'FrameGO(array).columns', 'IndexAutoFactory']
+    for name in names:
+        for n in range(0, nmax + 1):
+            pool = list(range(-n - 2, n + 3)) + [True, False, np.int64(n - 1), np.int64(n), 'a', '', 0.5, -1.5, (5, 6), None] + [float(i) for i in range(0, n + 1)]
+            groups = {'ok': []}
+            for k in pool:
+                c = auto_probe_class(n, k)
+                if c == 'ok':
+                    groups['ok'].append(k)
+                else:
+                    groups.setdefault((c, repr(k)), []).append(k)
+            for g, probes in groups.items():
+                ix = R[name](n)
+                assert ix._map is None, 'route no longer yields a map-less index'
+                obs = reading(obs_lit, ix, probes)
+                tags = {'route': name}
+                if g != 'ok':
+                    tags['finding'] = FINDING_AUTO[g[0]]
+                ctx.count(f'auto:n={n}', f'auto:{g if g == "ok" else g[0]}')
+                yield Case('api:auto-index', {'route': name, 'n': n, 'probes': repr(probes), 'observed': obs[:400]},
+                           m=f'chk_M_auto {n} {vl(probes)} {obs}', s=f'chk_S_auto {n} {vl(probes)} {obs}',
+                           tags=tags, nontrivial=n >= 1)
+
+
+# ----------------------------------------------------------------------------- grow-only histories
+def go_start(init):
+    import static_frame as sf
+    from static_frame.core.index_auto import IndexAutoFactory
+    kind, arg = init
+    if kind == 'labels':
+        return sf.IndexGO(arg)
+    return IndexAutoFactory.from_optional_constructor(arg, default_constructor=sf.IndexGO)
+
+
+def init_lit(init):
+    kind, arg = init
+    return f'(inl {vl(arg)})' if kind == 'labels' else f'(inr {lit.z(arg)})'
+
+
+def op_lit(o):
+    if o[0] == 'append':
+        return f'(VAppend {vlit(o[1])})'
+    if o[0] == 'extend':
+        return f'(VExtend {vl(o[1])})'
+    return 'VTouch'
+
+
+TOUCHES = [lambda ix: len(ix), lambda ix: ix.values, lambda ix: list(ix), lambda ix: ix.positions, lambda ix: ix.dtype, lambda ix: ix.copy()]
+
+
+def run_history(ctx, init, ops, touch_pick):
+    ix = go_start(init)
+    outs = []
+    for i, o in enumerate(ops):
+        try:
+            if o[0] == 'append':
+                ix.append(o[1])
+            elif o[0] == 'extend':
+                ix.extend(o[1])
+            else:
+                TOUCHES[touch_pick[i] % len(TOUCHES)](ix)
+            outs.append('(Ok tt)')
+        except Exception as e:  # noqa
+            outs.append(f'(Err {lit.s(lit.err_class(e))})')
+    return ix, outs
+
+
+def obs_lit_cold(ix, probes):
+    '''Like obs_lit, but loc_to_iloc / `in` are evaluated first, on the state the history left.'''
+    lookups = lit.lst([rz(lambda k=k: ix.loc_to_iloc(k)) for k in probes])
+    contains = lit.lst([lit.b(bool(ix.__contains__(k))) for k in probes])
+    n = len(ix)
+    values = arr_items(ix.values)
+    at = iter_items(ix.iloc[i] for i in range(n))
+    return ('(mk_obs ' + ' '.join([
+        vl(values), vl(iter_items(iter(ix))), vl(iter_items(reversed(ix))), lit.z(n),
+        lit.lst([lit.z(p) for p in ix.positions.tolist()]), vl(at), lookups, contains]) + ')')
+
+
+def classify_history(init, ops):
+    '''Simulate the SPECIFICATION on the input to decide (from the input alone) whether the history enters the class of
+    finding C02-autogo-float-append, and whether the index is still map-less (auto) at the end.'''
+    kind, arg = init
+    labels = list(arg) if kind == 'labels' else list(range(arg))
+    auto = kind == 'auto'
+    float_append = False
+
+    def push(v):
+        nonlocal auto, float_append
+        held = any(v == x for x in labels)
+        if auto and held and not is_int_typed(v):
+            float_append = True
+        if held:
+            return False
+        if auto and not (is_int_typed(v) and v == len(labels)):
+            auto = False
+        labels.append(v)
+        return True
+    for o in ops:
+        if o[0] == 'append':
+            push(o[1])
+        elif o[0] == 'extend':
+            for v in o[1]:
+                if not push(v):
+                    break
+    return float_append, auto, labels
+
+
+def go_probes(rng, labels_end, extra):
+    probes = list(labels_end)
+    rng.shuffle(probes)
+    return probes[:6] + extra
+
+
+def history_case(ctx, init, ops, stratum, touch_pick=None):
+    touch_pick = touch_pick or [0] * (len(ops) + 1)
+    float_append, auto_end, labels_end = classify_history(init, ops)
+    n_end = len(labels_end)
+    extra = [n_end, n_end + 1, 'zz', 0.5] if auto_end else [-1, n_end, 'zz', 0.5, None, (9, 9)]
+    probes = [k for k in go_probes(ctx.rng, labels_end, extra) if not auto_end or auto_probe_class(n_end, k) == 'ok']
+    tags = {'init': init[0]}
+    if float_append:
+        tags['finding'] = 'C02-autogo-float-append'
+    out = []
+    # warm: a reader is called after the history, then everything is observed
+    ops_w = list(ops) + [('touch',)]
+    ix, outs = run_history(ctx, init, ops_w, touch_pick)
+    obs = reading(obs_lit_cold, ix, probes)
+    I, O, P, R = init_lit(init), lit.lst([op_lit(o) for o in ops_w]), vl(probes), lit.lst(outs)
+    ctx.count(f'go:init={init[0]}', f'go:len={min(len(ops), 9)}', 'go:auto-at-end' if auto_end else 'go:mapped-at-end')
+    out.append(Case(stratum, {'init': repr(init), 'ops': repr(ops_w), 'probes': repr(probes), 'outcomes': outs, 'observed': obs[:400]},
+                    m=f'chk_M_go {I} {O} {P} {R} {obs}', s=f'chk_S_go {I} {O} {P} {R} {obs}', tags=dict(tags), nontrivial=len(ops) >= 1))
+    # cold: no reader after the last mutation (only distinct from warm when the history does not end in a reader)
+    if ops and ops[-1][0] != 'touch':
+        ix, outs = run_history(ctx, init, ops, touch_pick)
+        obs = reading(obs_lit_cold, ix, probes)
+        O, R = lit.lst([op_lit(o) for o in ops]), lit.lst(outs)
+        tags_c = dict(tags, cold=True)
+        if auto_end and not float_append:
+            tags_c['finding'] = 'C02-autogo-stale-positions'
+        out.append(Case(stratum + '-cold', {'init': repr(init), 'ops': repr(ops), 'probes': repr(probes), 'outcomes': outs, 'observed': obs[:400]},
+                        m=f'chk_M_go {I} {O} {P} {R} {obs}', s=f'chk_S_go {I} {O} {P} {R} {obs}', tags=tags_c, nontrivial=True))
+    return out
+
+
+GO_ALPHABET = [0, 1, 2, 3, 1.0, 2.0, True, 'a', (0, 1), -1]
+
+
+def go_small_cases(ctx):
+    inits = [('labels', []), ('labels', [0, 1]), ('labels', ['a', 1]), ('auto', 0), ('auto', 2)]
+    alphabet = GO_ALPHABET if ctx.tier == 'thorough' else [0, 2, 3, 1.0, 'a', True]
+    single = [('append', v) for v in alphabet] + [('touch',)]
+    maxlen = 2 if ctx.tier == 'quick' else 3
+    for init in inits:
+        for n in range(1, maxlen + 1):
+            for ops in itertools.product(single, repeat=n):
+                yield from history_case(ctx, init, list(ops), 'api:go-small')
+        for vs in itertools.product(alphabet[:5], repeat=2):
+            yield from history_case(ctx, init, [('extend', list(vs))], 'api:go-small')
+
+
+def go_random_cases(ctx):
+    pool = POOLS['int'][:8] + POOLS['str'][:4] + POOLS['tuple'][:3] + [1.0, 2.0, 3.0, 0.5, True, False, None, D0] + list(range(0, 14))
+    for _ in range(ctx.n(120, 2500)):
+        r = ctx.rng.random()
+        if r < 0.4:
+            init = ('auto', ctx.rng.choice([0, 1, 2, 3, 5]))
+        else:
+            kind = ctx.rng.choice(['int', 'str', 'mixed', 'tuple', 'float'])
+            init = ('labels', draw_labels(ctx.rng, kind, ctx.rng.choice([0, 1, 2, 4]), False))
+        ops = []
+        count = len(init[1]) if init[0] == 'labels' else init[1]
+        for _ in range(ctx.rng.choice([1, 2, 3, 5, 8, 12])):
+            q = ctx.rng.random()
+            if q < 0.55:
+                # bias toward the value that keeps an auto index auto
+                v = count if (init[0] == 'auto' and ctx.rng.random() < 0.6) else ctx.rng.choice(pool)
+                ops.append(('append', v))
+                count += 1
+            elif q < 0.75:
+                ops.append(('extend', [ctx.rng.choice(pool) for _ in range(ctx.rng.choice([0, 1, 2, 3]))]))
+            else:
+                ops.append(('touch',))
+        pick = [ctx.rng.randrange(len(TOUCHES)) for _ in range(len(ops) + 1)]
+        yield from history_case(ctx, init, ops, 'api:go-random', pick)
+
+
+# ----------------------------------------------------------------------------- list / slice keys
+def rlist(fn):
+    try:
+        out = fn()
+    except Exception as e:  # noqa
+        return f'(Err {lit.s(lit.err_class(e))})'
+    if isinstance(out, list) and all(isinstance(x, (int, np.integer)) for x in out):
+        return f'(Ok {lit.lst([lit.z(x) for x in out])})'
+    return '(Err "NotAList")'
+
+
+def rslice(fn):
+    try:
+        out = fn()
+    except Exception as e:  # noqa
+        return f'(Err {lit.s(lit.err_class(e))})'
+    if isinstance(out, slice):
+        return f'(Ok {lit.slice_(out)})'
+    return '(Err "NotASlice")'
+
+
+def oval(v, absent=False):
+    return 'None' if absent else f'(Some {vlit(v)})'
+
+
+def multi_key_cases(ctx):
+    import static_frame as sf
+    for _ in range(ctx.n(80, 1500)):
+        kind = ctx.rng.choice(['int', 'str', 'mixed', 'tuple', 'float', 'date'])
+        n = ctx.rng.choice([1, 2, 3, 5, 8])
+        labels = draw_labels(ctx.rng, kind, n, False)
+        cls = ctx.rng.choice([sf.Index, sf.IndexGO])
+        ix = cls(labels)
+        L = vl(labels)
+        pool = list(labels) + [x for x in ctx.rng.sample(ABSENT, 2) if x is not None and not any(x == y for y in labels)]
+        # list of labels
+        ks = [ctx.rng.choice(pool if ctx.rng.random() < 0.25 else labels) for _ in range(ctx.rng.choice([0, 1, 2, 3, 5]))]
+        out = rlist(lambda: ix.loc_to_iloc(ks))
+        ctx.count('key:list')
+        yield Case('api:loc_to_iloc-list', {'cls': cls.__name__, 'labels': repr(labels), 'key': repr(ks), 'observed': out},
+                   m=f'chk_M_list {L} {vl(ks)} {out}', s=f'chk_S_list {L} {vl(ks)} {out}', tags={'key': 'list'}, nontrivial=len(ks) >= 1)
+        # slice of labels (inclusive stop)
+        a = None if ctx.rng.random() < 0.3 else ctx.rng.choice(pool if ctx.rng.random() < 0.2 else labels)
+        b = None if ctx.rng.random() < 0.3 else ctx.rng.choice(pool if ctx.rng.random() < 0.2 else labels)
+        st = ctx.rng.choice([None, None, 1, 2, -1])
+        if a is None and b is None and st is None:
+            continue        # the null slice is answered by a different branch (slice(0, len)); element lookups are what C02 fixes
+        out = rslice(lambda: ix.loc_to_iloc(slice(a, b, st)))
+        ctx.count('key:slice')
+        yield Case('api:loc_to_iloc-slice', {'cls': cls.__name__, 'labels': repr(labels), 'key': repr((a, b, st)), 'observed': out},
+                   m=f'chk_M_slice {L} {oval(a, a is None)} {oval(b, b is None)} {lit.oz(st)} {out}',
+                   s=f'chk_S_slice {L} {oval(a, a is None)} {oval(b, b is None)} {lit.oz(st)} {out}', tags={'key': 'slice'})
+
+
+# ----------------------------------------------------------------------------- derivations
+def derived_case(ctx, name, labels, build, expect, probes, extra=None):
+    obs, ix = robs_lit(build, probes)
+    ctx.count(f'derive:{name}', 'derived:accepted' if ix is not None else 'derived:rejected')
+    desc = {'derivation': name, 'labels': repr(labels), 'probes': repr(probes), 'observed': obs[:300]}
+    desc.update(extra or {})
+    P = vl(probes)
+    return Case('api:derive', desc, m=f'chk_M_derived {expect} {P} {obs}', s=f'chk_S_derived {expect} {P} {obs}',
+                tags={'derivation': name})
+
+
+def setop_case(ctx, name, labels, other, build, expect, probes):
+    obs, ix = robs_lit(build, probes)
+    ctx.count(f'derive:{name}')
+    return Case('api:derive-setop', {'derivation': name, 'labels': repr(labels), 'other': repr(other), 'observed': obs[:300]},
+                s=f'chk_S_setop {expect} {vl(probes)} {obs}', tags={'derivation': name})
+
+
+def derive_cases(ctx):
+    import copy
+    import pickle
+    import static_frame as sf
+    for _ in range(ctx.n(60, 900)):
+        kind = ctx.rng.choice(['int', 'str', 'mixed', 'tuple', 'float', 'int', 'str'])
+        n = ctx.rng.choice([1, 2, 3, 4, 6, 9])
+        labels = draw_labels(ctx.rng, kind, n, False)
+        n = len(labels)
+        cls = ctx.rng.choice([sf.Index, sf.IndexGO])
+        src = cls(labels)
+        if cls is sf.IndexGO and ctx.rng.random() < 0.5:
+            # a grown source: the last label arrives by append (caches stale when the derivation starts)
+            src = cls(labels[:-1])
+            src.append(labels[-1])
+        L = vl(labels)
+        probes = list(labels)[:5] + [x for x in ctx.rng.sample(ABSENT, 2) if x is not None]
+        ex = {'cls': cls.__name__}
+        # iloc list (duplicates and out-of-range included)
+        ps = [ctx.rng.randrange(-n - 1, n + 1) for _ in range(ctx.rng.choice([0, 1, 2, 3, n]))]
+        yield derived_case(ctx, 'iloc[list]', labels, lambda: src.iloc[ps], f'(vS_iloc_list {L} {lit.lst([lit.z(p) for p in ps])})', probes, dict(ex, key=repr(ps)))
+        # iloc slice
+        k = slice(*(ctx.rng.choice([None, None] + list(range(-n - 1, n + 2))) for _ in range(2)), ctx.rng.choice([None, 1, 2, -1, -2]))
+        yield derived_case(ctx, 'iloc[slice]', labels, lambda: src.iloc[k], f'(vS_iloc_slice {L} {lit.slice_(k)})', probes, dict(ex, key=repr(k)))
+        # iloc Boolean mask
+        mask = [ctx.rng.random() < 0.5 for _ in range(n)]
+        yield derived_case(ctx, 'iloc[mask]', labels, lambda: src.iloc[np.array(mask, dtype=bool)], f'(vS_iloc_mask {L} {lit.lst([lit.b(x) for x in mask])})', probes, dict(ex, key=repr(mask)))
+        # loc list
+        ks = [ctx.rng.choice(labels) for _ in range(ctx.rng.choice([1, 2, 3]))]
+        if ctx.rng.random() < 0.15:
+            ks.append('zz')
+        yield derived_case(ctx, 'loc[list]', labels, lambda: src.loc[ks], f'(vS_loc_list {L} {vl(ks)})', probes, dict(ex, key=repr(ks)))
+        # drop
+        ps = sorted({ctx.rng.randrange(-n, n) for _ in range(ctx.rng.choice([1, 2, 3]))})
+        yield derived_case(ctx, 'drop.iloc[list]', labels, lambda: src.drop.iloc[ps], f'(vS_drop_iloc {L} {lit.lst([lit.z(p) for p in ps])})', probes, dict(ex, key=repr(ps)))
+        ks = list({id(x): x for x in (ctx.rng.choice(labels) for _ in range(ctx.rng.choice([1, 2])))}.values())
+        yield derived_case(ctx, 'drop.loc[list]', labels, lambda: src.drop.loc[ks], f'(vS_drop_loc {L} {vl(ks)})', probes, dict(ex, key=repr(ks)))
+        # roll
+        sh = ctx.rng.randrange(-2 * n - 1, 2 * n + 2)
+        yield derived_case(ctx, 'roll', labels, lambda: src.roll(sh), f'(vS_roll {L} {lit.z(sh)})', probes, dict(ex, shift=sh))
+        # relabel with a dict (may collide -> must be rejected)
+        tgt = ctx.rng.sample(labels, min(n, ctx.rng.choice([1, 2])))
+        mp = {a: ctx.rng.choice(labels + ['new1', 'new2', 77]) for a in tgt}
+        mlit = lit.lst([f'({vlit(a)}, {vlit(b)})' for a, b in mp.items()])
+        yield derived_case(ctx, 'relabel(dict)', labels, lambda: src.relabel(mp), f'(vS_relabel {L} {mlit})', probes + ['new1', 77], dict(ex, mapping=repr(mp)))
+        yield derived_case(ctx, 'relabel(func)', labels, lambda: src.relabel(lambda x: mp.get(x, x)), f'(vS_relabel {L} {mlit})', probes + ['new1', 77], dict(ex, mapping=repr(mp)))
+        # identity-like derivations
+        for nm, fn in (('copy', lambda: src.copy()), ('rename', lambda: src.rename('nm')), ('deepcopy', lambda: copy.deepcopy(src)),
+                       ('pickle', lambda: pickle.loads(pickle.dumps(src))), ('Index(ix)', lambda: sf.Index(src)), ('IndexGO(ix)', lambda: sf.IndexGO(src)),
+                       ('iloc[:]', lambda: src.iloc[:]), ('drop.iloc[None]', lambda: src._drop_iloc(None))):
+            if ctx.rng.random() < 0.35:
+                yield derived_case(ctx, nm, labels, fn, f'(Ok {L})', probes, ex)
+        if kind == 'int':
+            asc = ctx.rng.random() < 0.5
+            yield derived_case(ctx, 'sort', labels, lambda: src.sort(ascending=asc), f'(vS_sort_int {L} {lit.b(asc)})', probes, dict(ex, ascending=asc))
+            small = all(abs(x) < 2 ** 31 for x in labels)
+            if small:
+                yield derived_case(ctx, 'astype(float)', labels, lambda: src.astype(float), f'(Ok {L})', probes, ex)
+            yield derived_case(ctx, 'astype(object)', labels, lambda: src.astype(object), f'(Ok {L})', probes, ex)
+        # set operations with another index / iterable
+        other = draw_labels(ctx.rng, kind, ctx.rng.choice([0, 1, 3, 5]), False)
+        if ctx.rng.random() < 0.5 and labels:
+            other = other + [x for x in ctx.rng.sample(labels, min(n, 2)) if not any(x == y for y in other)]
+        if kind in ('int', 'str', 'float'):     # sortable homogeneous labels: NumPy set functions sort
+            O = vl(other)
+            oth = sf.Index(other) if ctx.rng.random() < 0.6 else list(other)
+            if not (isinstance(oth, list) and not oth):
+                pr = probes + other[:3]
+                yield setop_case(ctx, 'union', labels, other, lambda: src.union(oth), f'(vset_union {L} {O})', pr)
+                yield setop_case(ctx, 'intersection', labels, other, lambda: src.intersection(oth), f'(vset_inter {L} {O})', pr)
+                yield setop_case(ctx, 'difference', labels, other, lambda: src.difference(oth), f'(vset_diff {L} {O})', pr)
+
+
+# ----------------------------------------------------------------------------- datetime-typed indices
+def dt_classes():
+    import static_frame as sf
+    return {
+        'D': (sf.IndexDate, sf.IndexDateGO, ['2020-01-01', '2020-01-02', '2020-02-29', '1969-12-31', '2021-12-31', '2020-01-03', '1999-07-04']),
+        'M': (sf.IndexYearMonth, sf.IndexYearMonthGO, ['2020-01', '2020-02', '1969-12', '2021-12', '2000-06']),
+        'Y': (sf.IndexYear, sf.IndexYearGO, ['2020', '2021', '1969', '1970', '2000']),
+        's': (sf.IndexSecond, sf.IndexSecondGO, ['2020-01-01T00:00:00', '2020-01-01T00:00:01', '1969-12-31T23:59:59', '2020-06-01T12:30:00']),
+    }
+
+
+def dt_forms(unit, s, rng):
+    '''Python forms of the same datetime label.'''
+    forms = [s, np.datetime64(s, unit)]
+    if unit == 'D':
+        forms.append(datetime.date.fromisoformat(s))
+    if unit == 'Y':
+        forms.append(int(s))
+    return rng.choice(forms)
+
+
+def datetime_cases(ctx):
+    C = dt_classes()
+    for _ in range(ctx.n(60, 800)):
+        unit = ctx.rng.choice(sorted(C))
+        cls, cls_go, pool = C[unit]
+        n = ctx.rng.choice([0, 1, 2, 3, 4])
+        dup = ctx.rng.random() < 0.25
+        strs = [ctx.rng.choice(pool) for _ in range(n)] if dup else ctx.rng.sample(pool, min(n, len(pool)))
+        canon_labels = [np.datetime64(s, unit) for s in strs]
+        given = [dt_forms(unit, s, ctx.rng) for s in strs]
+        probe_strs = list(dict.fromkeys(strs))[:4] + [p for p in pool if p not in strs][:2]
+        probe_keys = [dt_forms(unit, s, ctx.rng) for s in probe_strs]
+        if unit == 'Y':
+            probe_keys = [k if not isinstance(k, int) else str(k) for k in probe_keys]   # an int key is a position-like key, not a year label
+        probe_lits = lit.lst([vlit(np.datetime64(s, unit)) for s in probe_strs])
+        go = ctx.rng.random() < 0.5
+        klass = cls_go if go else cls
+        try:
+            ix = klass(given)
+            obs = f'(Ok {obs_lit(ix, probe_keys)})'
+        except Exception as e:  # noqa
+            ix = None
+            obs = f'(Err {lit.s(lit.err_class(e))})'
+        L = vl(canon_labels)
+        ctx.count(f'dt:{unit}', 'dt:accepted' if ix is not None else 'dt:rejected')
+        yield Case('api:datetime-index', {'cls': klass.__name__, 'labels': repr(given), 'probes': repr(probe_keys), 'observed': obs[:300]},
+                   m=f'chk_M_index {L} {probe_lits} {obs}', s=f'chk_S_index {L} {probe_lits} {obs}', tags={'cls': klass.__name__},
+                   nontrivial=n >= 2)
+        if go and ix is not None:
+            # grow it: appended values in any form; duplicates must be rejected
+            adds = [ctx.rng.choice(pool) for _ in range(ctx.rng.choice([1, 2, 4]))]
+            ops, outs = [], []
+            for s in adds:
+                v = dt_forms(unit, s, ctx.rng)
+                if ctx.rng.random() < 0.3:
+                    len(ix)
+                    ops.append('VTouch')
+                    outs.append('(Ok tt)')
+                try:
+                    ix.append(v)
+                    outs.append('(Ok tt)')
+                except Exception as e:  # noqa
+                    outs.append(f'(Err {lit.s(lit.err_class(e))})')
+                ops.append(f'(VAppend {vlit(np.datetime64(s, unit))})')
+            obs2 = reading(obs_lit_cold, ix, probe_keys)
+            I, O, R = f'(inl {L})', lit.lst(ops), lit.lst(outs)
+            yield Case('api:datetime-go', {'cls': klass.__name__, 'labels': repr(given), 'appended': repr(adds), 'outcomes': outs, 'observed': obs2[:300]},
+                       m=f'chk_M_go {I} {O} {probe_lits} {R} {obs2}', s=f'chk_S_go {I} {O} {probe_lits} {R} {obs2}', tags={'cls': klass.__name__})
+
+
+# ----------------------------------------------------------------------------- hierarchical indices
+def ll(labels):
+    return lit.lst([vl(list(x)) for x in labels])
+
+
+def hobs_lit(ih, probes):
+    n = len(ih)
+    rows = [list(r) for r in ih.values.tolist()] if n else []
+    return ('(mk_hobs ' + ' '.join([
+        ll(rows), ll([iter_items(x) for x in ih]), ll([iter_items(x) for x in reversed(ih)]), lit.z(n),
+        lit.lst([lit.z(p) for p in ih.positions.tolist()]), ll([iter_items(ih.iloc[i]) for i in range(n)]),
+        lit.lst([rz(lambda k=k: ih.loc_to_iloc(tuple(k))) for k in probes]),
+        lit.lst([lit.b(bool(tuple(k) in ih)) for k in probes]),
+    ]) + ')')
+
+
+def rhobs_lit(build, probes):
+    try:
+        ih = build()
+    except Exception as e:  # noqa
+        return f'(Err {lit.s(lit.err_class(e))})', None
+    return f'(Ok {reading(hobs_lit, ih, probes)})', ih
+
+
+def overlong_held(labels, probe):
+    '''The probe is longer than the depth and its depth-prefix is a held label (class of finding C02-hier-contains-overlong).'''
+    if not labels:
+        return False
+    d = len(labels[0])
+    return len(probe) > d and any(len(x) == d and tuple(x) == tuple(probe[:d]) for x in labels)
+
+
+def hier_case(ctx, route, build, labels, probes, stratum, model=True):
+    out = []
+    groups = [([p for p in probes if not overlong_held(labels, p)], None)]
+    over = [p for p in probes if overlong_held(labels, p)]
+    if over:
+        groups.append((over, 'C02-hier-contains-overlong'))
+    for ps, finding in groups:
+        obs, ih = rhobs_lit(lambda: build(labels), ps)
+        if finding and ih is None:
+            continue
+        L, P = ll(labels), ll(ps)
+        depth = len(labels[0]) if labels else 0
+        ctx.count(f'hier:route:{route}', f'hier:n={min(len(labels), 9)}', f'hier:depth={depth}', 'hier:accepted' if ih is not None else 'hier:rejected')
+        tags = {'route': route}
+        if finding:
+            tags['finding'] = finding
+        out.append(Case(stratum, {'route': route, 'labels': repr(labels), 'probes': repr(ps), 'observed': obs[:400]},
+                        m=f'chk_M_hier {L} {P} {obs}' if model else None, s=f'chk_S_hier {L} {P} {obs}',
+                        tags=tags, nontrivial=len(labels) >= 2))
+    return out
+
+
+def hier_routes():
+    import static_frame as sf
+    return {
+        'IH.from_labels': lambda ls: sf.IndexHierarchy.from_labels(ls),
+        'IHGO.from_labels': lambda ls: sf.IndexHierarchyGO.from_labels(ls),
+        'IH.from_labels(generator)': lambda ls: sf.IndexHierarchy.from_labels(tuple(x) for x in ls),
+        'IH.from_labels(array)': lambda ls: sf.IndexHierarchy.from_labels(np.array(ls, dtype=object)),
+    }
+
+
+def hier_probes(rng, labels, alphabet_rows):
+    probes = [list(x) for x in labels]
+    rng.shuffle(probes)
+    probes = probes[:5]
+    extra = [list(x) for x in rng.sample(alphabet_rows, min(3, len(alphabet_rows)))]
+    short = [list(labels[0][:-1])] if labels and len(labels[0]) > 1 else []
+    long_ = [list(labels[0]) + [labels[0][-1]]] if labels else []
+    return probes + extra + short + long_
+
+
+def hier_small_cases(ctx):
+    R = hier_routes()
+    rows2 = [(a, b) for a in ('a', 'b') for b in (1, 2)]
+    rows3 = [(a, b, c) for a in ('a', 'b') for b in ('x', 'y') for c in (1, 2)]
+    plan = [(rows2, 3 if ctx.tier == 'quick' else 4), (rows3, 2 if ctx.tier == 'quick' else 3)]
+    names = ['IH.from_labels'] if ctx.tier == 'quick' else ['IH.from_labels', 'IHGO.from_labels']
+    for rows, maxlen in plan:
+        for n in range(1, maxlen + 1):
+            for labels in itertools.product(rows, repeat=n):
+                probes = [list(r) for r in rows[:6]] + [list(rows[0][:-1])]
+                for name in names:
+                    yield from hier_case(ctx, name, R[name], [tuple(x) for x in labels], probes, 'api:hier-small')
+    # a tuple as a COMPONENT of a hierarchical label (index_level.py:155 notes it is unsupported): index.iloc[i] flattens it
+    for labels in ([('a', (0, 1)), ('b', (0, 1))], [('c', 'x', 'y'), ('c', 'x', (0, 1))]):
+        for c in hier_case(ctx, 'IH.from_labels', R['IH.from_labels'], labels, [list(labels[0])], 'api:hier-tuple-component'):
+            c.tags['finding'] = 'C02-hier-tuple-component'
+            yield c
+    # malformed: inconsistent depth, depth 1, empty
+    for labels in ([('a', 1), ('b',)], [('a',), ('b',)], [('a', 1), ('a', 2, 3)], []):
+        yield from hier_case(ctx, 'IH.from_labels', R['IH.from_labels'], labels, [['a', 1]], 'api:hier-small')
+
+
+def random_tree_labels(rng, depth, pools):
+    '''A tree-ordered, duplicate-free label table.'''
+    def rec(d):
+        ks = rng.sample(pools[d], rng.randint(1, min(3, len(pools[d]))))
+        if d == depth - 1:
+            return [(k,) for k in ks]
+        out = []
+        for k in ks:
+            out.extend((k,) + r for r in rec(d + 1))
+        return out
+    return rec(0)
+
+
+def hier_random_cases(ctx):
+    import static_frame as sf
+    R = hier_routes()
+    names = sorted(R)
+    pools_by = [['a', 'b', 'c', 'd'], [1, 2, 3, 'x'], [True, 'y', 5, 0.5], [10, 20, 30]]
+    for _ in range(ctx.n(100, 2000)):
+        depth = ctx.rng.choice([2, 2, 3, 3, 4])
+        pools = pools_by[:depth]
+        labels = random_tree_labels(ctx.rng, depth, pools)[:12]
+        r = ctx.rng.random()
+        mut = 'none'
+        if r < 0.2 and len(labels) >= 2:
+            i, j = ctx.rng.sample(range(len(labels)), 2)
+            labels[i], labels[j] = labels[j], labels[i]
+            mut = 'swap'
+        elif r < 0.3:
+            labels.insert(ctx.rng.randrange(len(labels) + 1), ctx.rng.choice(labels))
+            mut = 'dup'
+        elif r < 0.4:
+            ctx.rng.shuffle(labels)
+            mut = 'shuffle'
+        rows = [tuple(ctx.rng.choice(p) for p in pools) for _ in range(4)]
+        probes = hier_probes(ctx.rng, labels, rows)
+        name = ctx.rng.choice(names)
+        ctx.count(f'hier:mut={mut}')
+        yield from hier_case(ctx, name, R[name], labels, probes, 'api:hier-random')
+    # other construction routes: the expected table is computed by the harness, judged by S only
+    for _ in range(ctx.n(30, 400)):
+        a = ctx.rng.sample(['a', 'b', 'c', 1, 2], ctx.rng.randint(1, 3))
+        b = ctx.rng.sample([1, 2, 3, 'x', 'y'], ctx.rng.randint(1, 3))
+        c = ctx.rng.sample([True, 5, 'q'], ctx.rng.randint(1, 2))
+        levels = [a, b] if ctx.rng.random() < 0.6 else [a, b, c]
+        table = [tuple(x) for x in itertools.product(*levels)]
+        probes = hier_probes(ctx.rng, table, table[:2])
+        yield from hier_case(ctx, 'IH.from_product', lambda ls: sf.IndexHierarchy.from_product(*levels), table, probes, 'api:hier-routes', model=False)
+        tree = {k: list(ctx.rng.sample(b, ctx.rng.randint(1, len(b)))) for k in a}
+        table = [(k, v) for k, vs in tree.items() for v in vs]
+        probes = hier_probes(ctx.rng, table, table[:2])
+        yield from hier_case(ctx, 'IH.from_tree', lambda ls: sf.IndexHierarchy.from_tree(tree), table, probes, 'api:hier-routes', model=False)
+        yield from hier_case(ctx, 'IH.from_index_items', lambda ls: sf.IndexHierarchy.from_index_items((k, sf.Index(vs)) for k, vs in tree.items()), table, probes, 'api:hier-routes', model=False)
+        src = sf.Index(b)
+        table = [('L', v) for v in b]
+        yield from hier_case(ctx, 'Index.level_add', lambda ls: src.level_add('L'), table, hier_probes(ctx.rng, table, table[:1]), 'api:hier-routes', model=False)
+
+
+def hier_derive_cases(ctx):
+    '''Indices derived from a hierarchical index: the expected label table is computed from the source table; S decides
+    whether that table must be rejected (not a tree in that order / duplicates) or be an exact bijection.'''
+    import static_frame as sf
+    pools_by = [['a', 'b', 'c'], [1, 2, 3], ['x', 'y']]
+    for _ in range(ctx.n(60, 900)):
+        depth = ctx.rng.choice([2, 2, 3])
+        table = random_tree_labels(ctx.rng, depth, pools_by[:depth])[:9]
+        n = len(table)
+        cls = ctx.rng.choice([sf.IndexHierarchy, sf.IndexHierarchyGO])
+        src = cls.from_labels(table)
+        rows = [tuple(ctx.rng.choice(p) for p in pools_by[:depth]) for _ in range(2)]
+
+        def emit(name, build, expect, extra=None):
+            probes = hier_probes(ctx.rng, expect if expect else table, rows)
+            probes = [p for p in probes if not overlong_held(expect, p)]
+            obs, ih = rhobs_lit(build, probes)
+            ctx.count(f'hier-derive:{name}', 'hier-derive:accepted' if ih is not None else 'hier-derive:rejected')
+            desc = {'derivation': name, 'source': repr(table), 'expected_table': repr(expect), 'probes': repr(probes), 'observed': obs[:300]}
+            desc.update(extra or {})
+            return Case('api:hier-derive', desc, s=f'chk_S_hier {ll(expect)} {ll(probes)} {obs}', tags={'derivation': name})
+        ps = [ctx.rng.randrange(n) for _ in range(ctx.rng.choice([1, 2, 3]))]
+        if ctx.rng.random() < 0.5:
+            ps = sorted(set(ps))
+        if len(ps) >= 1:
+            yield emit('iloc[list]', lambda: src.iloc[ps], [table[p] for p in ps], {'key': repr(ps)})
+        k = slice(ctx.rng.choice([None, 0, 1, 2]), ctx.rng.choice([None, n, n - 1, 2]), ctx.rng.choice([None, 1, 2, -1]))
+        if len(table[k]) >= 1:
+            yield emit('iloc[slice]', lambda: src.iloc[k], list(table[k]), {'key': repr(k)})
+        mask = [ctx.rng.random() < 0.6 for _ in range(n)]
+        if any(mask):
+            yield emit('iloc[mask]', lambda: src.iloc[np.array(mask)], [x for x, m in zip(table, mask) if m], {'key': repr(mask)})
+        sh = ctx.rng.randrange(-n, n + 1)
+        yield emit('roll', lambda: src.roll(sh), [table[(i - sh) % n] for i in range(n)], {'shift': sh})
+        yield emit('level_add', lambda: src.level_add('L'), [('L',) + x for x in table])
+        yield emit('copy', lambda: src.copy(), list(table))
+        yield emit('IndexHierarchy(ih)', lambda: sf.IndexHierarchy(src), list(table))
+        yield emit('relabel(func)', lambda: src.relabel(lambda x: tuple(x[:-1]) + (str(x[-1]) + '!',)), [x[:-1] + (str(x[-1]) + '!',) for x in table])
+        # flat / level_drop give flat indices
+        probes = [tuple(x) for x in table[:4]] + [rows[0]]
+        obs, ix = robs_lit(lambda: src.flat(), probes)
+        yield Case('api:hier-derive', {'derivation': 'flat', 'source': repr(table), 'observed': obs[:300]},
+                   m=f'chk_M_index {vl([tuple(x) for x in table])} {vl(probes)} {obs}',
+                   s=f'chk_S_index {vl([tuple(x) for x in table])} {vl(probes)} {obs}', tags={'derivation': 'flat'})
+        if depth == 2:
+            inner = [x[1] for x in table]
+            probes = inner[:3] + ['zz']
+            obs, ix = robs_lit(lambda: src.level_drop(1), probes)
+            yield Case('api:hier-derive', {'derivation': 'level_drop(1)', 'source': repr(table), 'observed': obs[:300]},
+                       m=f'chk_M_index {vl(inner)} {vl(probes)} {obs}', s=f'chk_S_index {vl(inner)} {vl(probes)} {obs}', tags={'derivation': 'level_drop'})
+
+
+def ihgo_append_cases(ctx):
+    '''IndexHierarchyGO.append inside the class where the appended label continues the tree order (extends the last
+    group at some depth, or opens a new outermost group) or repeats the last label; other appends are D4 (C05/C09).'''
+    import static_frame as sf
+    pools_by = [['a', 'b', 'c', 'd', 'e'], [1, 2, 3, 4, 5], ['x', 'y', 'z', 'w']]
+    for _ in range(ctx.n(40, 600)):
+        depth = ctx.rng.choice([2, 3])
+        pools = pools_by[:depth]
+        table = random_tree_labels(ctx.rng, depth, [p[:3] for p in pools])[:6]
+        ih = sf.IndexHierarchyGO.from_labels(table)
+        labels = list(table)
+        ops, expected_ok, outs = [], [], []
+        for _ in range(ctx.rng.choice([1, 2, 3, 5])):
+            last = labels[-1]
+            r = ctx.rng.random()
+            if r < 0.15:
+                new = last                                   # duplicate of the last label: must be rejected
+            else:
+                keep = ctx.rng.randrange(0, depth)           # keep the first `keep` components of the last label
+                cand = None
+                for _try in range(20):
+                    tail = tuple(ctx.rng.choice(p) for p in pools[keep:])
+                    c = tuple(last[:keep]) + tail
+                    # must not re-enter an existing non-last group at any depth, and not be held
+                    if c in labels:
+                        continue
+                    ok = True
+                    for p in range(1, depth):
+                        shares = [x for x in labels if x[:p] == c[:p]]
+                        if shares and labels[-1][:p] != c[:p]:
+                            ok = False
+                    if ok:
+                        cand = c
+                        break
+                if cand is None:
+                    continue
+                new = cand
+            if ctx.rng.random() < 0.3:
+                len(ih)
+            try:
+                ih.append(new)
+                outs.append(True)
+            except Exception as e:  # noqa
+                outs.append(False)
+            exp = new not in labels
+            expected_ok.append(exp)
+            if exp:
+                labels.append(new)
+            ops.append(new)
+        rows = [tuple(ctx.rng.choice(p) for p in pools) for _ in range(2)]
+        probes = [p for p in hier_probes(ctx.rng, labels, rows) if not overlong_held(labels, p)]
+        obs = f'(Ok {reading(hobs_lit, ih, probes)})'
+        ctx.count('ihgo:append-history')
+        yield Case('api:ihgo-append', {'initial': repr(table), 'appended': repr(ops), 'outcomes': outs, 'expected_table': repr(labels), 'observed': obs[:300]},
+                   s=f'chk_S_hier {ll(labels)} {ll(probes)} {obs}',
+                   py_fail=None if outs == expected_ok else f'append outcomes {outs}, the property demands {expected_ok} (accepted iff the label is not held)',
+                   tags={'route': 'IHGO.append'})
+
+
+# ----------------------------------------------------------------------------- oracle / kernel strata
+def automap_oracle_cases(ctx):
+    '''automap.FrozenAutoMap / AutoMap against the oracle model am_build / am_get (exhaustive small label lists).'''
+    from automap import AutoMap, FrozenAutoMap
+    alphabet = [0, 1, True, 1.0, 'a', (0, 1), None, 2]
+    maxlen = 3 if ctx.tier == 'quick' else 4
+    for n in range(0, maxlen + 1):
+        for labels in itertools.product(alphabet, repeat=n):
+            outs = []
+            for cls in (FrozenAutoMap, AutoMap):
+                try:
+                    m = cls(labels)
+                    outs.append('(Ok ' + lit.lst([f'({vlit(k)}, {lit.z(m[k])})' for k in labels]) + ')')
+                except ValueError:
+                    outs.append('(Err "ValueError")')
+            ctx.count('automap:dup' if 'Err' in outs[0] else 'automap:ok')
+            yield Case('oracle:automap', {'labels': repr(labels), 'observed': outs[0][:200]},
+                       m=f'chk_automap {vl(labels)} {outs[0]} && chk_automap {vl(labels)} {outs[1]}', tags={'oracle': 'automap'},
+                       nontrivial=n >= 2)
+
+
+STRATA = [construct_small_cases, construct_random_cases, auto_cases, go_small_cases, go_random_cases, multi_key_cases,
+          derive_cases, datetime_cases, hier_small_cases, hier_random_cases, hier_derive_cases, ihgo_append_cases,
+          automap_oracle_cases]
+
+
 def cases(ctx):
-    yield from construct_small_cases(ctx)
-    yield from construct_random_cases(ctx)
+    for gen in STRATA:
+        it = gen(ctx)
+        k = 0
+        while True:
+            try:
+                c = next(it)
+            except StopIteration:
+                break
+            except ReaderRaised as e:
+                # the generator is dead after an exception; report what happened as a violation of the property
+                yield Case('api:reader-raised', {'stratum': gen.__name__, 'after_cases': k, 'error': str(e)},
+                           py_fail=f'a reader of an existing index raised: {e}', tags={'stratum': gen.__name__})
+                break
+            k += 1
+            yield c
